@@ -28,6 +28,7 @@ type Expression interface {
 }
 
 type expression struct {
+	node           ast.Node
 	nodeEvaluator  NodeEvaluator
 	executionState ExecutionState
 }
@@ -46,20 +47,33 @@ func NewExpression(node ast.Node) (Expression, error) {
 	}
 
 	return &expression{
+		node:           node,
 		nodeEvaluator:  nodeEvaluator,
 		executionState: CreateExecutionState(),
 	}, nil
 }
 
 func (se *expression) CopyReset() Expression {
+	// The evaluators of lambda nodes hold the state of their stateful functions themselves:
+	// a copy that shared the evaluator tree would share that state, so the tree is built anew.
+	nodeEvaluator, err := createNodeEvaluator(se.node)
+	if err != nil {
+		// The same node has been compiled before.
+		nodeEvaluator = se.nodeEvaluator
+	}
 	return &expression{
-		nodeEvaluator:  se.nodeEvaluator,
+		node:           se.node,
+		nodeEvaluator:  nodeEvaluator,
 		executionState: CreateExecutionState(),
 	}
 }
 
 func (se *expression) Reset() {
 	se.executionState.ResetAll()
+	// The state that lambda nodes hold inside the evaluator tree goes with the tree.
+	if nodeEvaluator, err := createNodeEvaluator(se.node); err == nil {
+		se.nodeEvaluator = nodeEvaluator
+	}
 }
 
 func (se *expression) Type(scope ReadOnlyScope) (ast.ValueType, error) {
